@@ -1082,6 +1082,76 @@ impl World {
     }
 }
 
+#[cfg(feature = "verif-hooks")]
+impl World {
+    /// verif hook H8: the bookkeeping of the world (files, name-id table, cached analyses,
+    /// imports, reverse imports, failed imports, file uris) as JSON. File ids are given in
+    /// their debug form.
+    pub fn verif_state(&self) -> serde_json::Value {
+        use serde_json::json;
+        let fid = |id: &FileId| format!("{id:?}");
+        let files: Vec<_> = self
+            .sources
+            .file_paths
+            .iter()
+            .filter_map(|(id, path)| match path {
+                SourcePath::Path(p, _) => Some(json!({
+                    "id": fid(id),
+                    "path": p.to_string_lossy(),
+                    "src": self.sources.source(*id),
+                })),
+                _ => None,
+            })
+            .collect();
+        let entries: Vec<_> = self
+            .sources
+            .verif_entries()
+            .into_iter()
+            .map(|(path, id, kind)| json!({"path": path, "id": id, "kind": kind}))
+            .collect();
+        let analyses: Vec<_> = self
+            .analysis_reg
+            .borrow_analyses()
+            .iter()
+            .map(|(id, a)| {
+                json!({
+                    "id": fid(id),
+                    "state": format!("{:?}", a.state()),
+                    "parse_errors": a.parse_errors().errors.len(),
+                    "diags": a.typecheck_diagnostics().iter().map(|d| json!({
+                        "message": d.message.clone(),
+                        "severity": d.severity,
+                    })).collect::<Vec<_>>(),
+                })
+            })
+            .collect();
+        let imports: Vec<_> = self
+            .import_data
+            .imports
+            .iter()
+            .map(|(id, tgts)| json!({"id": fid(id), "targets": tgts.iter().map(|t| fid(&t.file_id)).collect::<Vec<_>>()}))
+            .collect();
+        let rev_imports: Vec<_> = self
+            .import_data
+            .rev_imports
+            .iter()
+            .map(|(id, revs)| json!({"id": fid(id), "importers": revs.keys().map(fid).collect::<Vec<_>>()}))
+            .collect();
+        let failed: Vec<_> = self
+            .failed_imports
+            .iter()
+            .map(|(name, ids)| json!({"name": name.to_string_lossy(), "importers": ids.iter().map(fid).collect::<Vec<_>>()}))
+            .collect();
+        let uris: Vec<_> = self
+            .file_uris
+            .iter()
+            .map(|(id, uri)| json!({"id": fid(id), "uri": uri.as_str()}))
+            .collect();
+        json!({"files": files, "entries": entries, "analyses": analyses, "imports": imports,
+               "rev_imports": rev_imports, "failed_imports": failed, "file_uris": uris})
+    }
+}
+
 /// The import resolver used by [World]. It borrows from the analysis registry, from the source
 /// cache and from the import data that are updated as new file are parsed.
 pub(crate) struct WorldImportResolver<'a, 'std> {
